@@ -270,9 +270,28 @@ func runC20(c *Ctx, w *World, r *Report) {
 					badH = fmt.Sprintf("kind %s must add its header into the sum, the return at %s adds none", kn, w.InstrPos(ret))
 					continue
 				}
+				// within the specialisation: one load can be followed by the other on a path
+				sliceReach := func(from, to *ssa.BasicBlock) bool {
+					seen := map[*ssa.BasicBlock]bool{}
+					st := []*ssa.BasicBlock{from}
+					for len(st) > 0 {
+						b := st[len(st)-1]
+						st = st[:len(st)-1]
+						for _, sc := range b.Succs {
+							if sc == to {
+								return true
+							}
+							if slice[sc] && !seen[sc] {
+								seen[sc] = true
+								st = append(st, sc)
+							}
+						}
+					}
+					return false
+				}
 				for i, a := range into {
 					for j, c := range into {
-						if i < j && (a.ld.Block() == c.ld.Block() || a.ld.Block().Dominates(c.ld.Block()) || c.ld.Block().Dominates(a.ld.Block())) {
+						if i < j && (a.ld.Block() == c.ld.Block() || sliceReach(a.ld.Block(), c.ld.Block()) || sliceReach(c.ld.Block(), a.ld.Block())) {
 							badH = fmt.Sprintf("kind %s must add exactly one header variable into the sum, the return at %s receives %s and %s on one path", kn, w.InstrPos(ret), a.g.Name(), c.g.Name())
 						}
 					}
